@@ -32,11 +32,20 @@ import (
 
 var (
 	groupNames = []string{"", "g", "ga", "h", "pd"}
-	idNames    = []string{"", "a", "aa", "ab", "b", "c", "default"}
+	idNames    = bulkIDs([]string{"", "a", "aa", "ab", "b", "c", "default"}) // + e00 … e59 (bulk stream)
 	keyNames   = []string{"", "a", "aa", "ab", "b", "ba", "c", "d", "e"} // 8 ("e") is only queried
 )
 
 const maxKey = 8
+
+const firstBulkID, nBulkIDs = 7, 60
+
+func bulkIDs(base []string) []string {
+	for i := 0; i < nBulkIDs; i++ {
+		base = append(base, fmt.Sprintf("e%02d", i))
+	}
+	return base
+}
 
 type payload struct {
 	LabelConstraints []placement.LabelConstraint `json:"label_constraints,omitempty"`
@@ -787,12 +796,84 @@ func (g *gen) sequence(maxOps int, corrupt bool) {
 	}
 }
 
+// bulk brings the number of persisted rules to around each page boundary of Storage.LoadRangeByPrefix (100 keys per
+// page) and restarts twice at each: what is loaded, what is served and the stored key set must stay the same.
+func (g *gen) bulk() {
+	r := g.r
+	g.w.run(g.t, "reset")
+	free := [][2]int{}
+	for grp := 1; grp <= 4; grp++ {
+		for id := firstBulkID; id < firstBulkID+nBulkIDs; id++ {
+			free = append(free, [2]int{grp, id})
+		}
+	}
+	for i := len(free) - 1; i > 0; i-- {
+		j := r.Intn(i + 1)
+		free[i], free[j] = free[j], free[i]
+	}
+	narrow := func(k [2]int) string {
+		start := r.Range(0, 6)
+		end := start + 1
+		if r.Bool(1, 10) {
+			end = r.Range(start+1, 7)
+		}
+		role := []string{"voter", "voter", "follower", "learner"}[r.Intn(4)]
+		return fmt.Sprintf("%d:%d:%d:0:%d:%d:%s:1:%d", k[0], k[1], []int{0, 0, 1}[r.Intn(3)], start, end, role, r.Intn(4))
+	}
+	if r.Bool(1, 2) {
+		g.w.run(g.t, fmt.Sprintf("setgroup %d %d 0", r.Range(1, 3), r.Range(1, 3)))
+	}
+	stored := 1 // pd/default
+	targets := []int{99, 100, 101, 199, 200, 201, 225 + r.Intn(12)}
+	for _, target := range targets {
+		if r.Bool(1, 4) {
+			continue
+		}
+		single := 0
+		if r.Bool(1, 2) {
+			single = r.Range(1, 3) // reach the boundary with individual SetRule calls
+		}
+		var items []string
+		for stored+len(items) < target-single && len(free) > 0 {
+			items = append(items, "+"+narrow(free[0]))
+			free = free[1:]
+		}
+		if len(items) > 0 {
+			if g.w.run(g.t, "batch "+strings.Join(items, ",")) == "ok" {
+				stored += len(items)
+			}
+		}
+		for ; single > 0 && len(free) > 0; single-- {
+			if g.w.run(g.t, "set "+narrow(free[0])) == "ok" {
+				stored++
+			}
+			free = free[1:]
+			if r.Bool(1, 2) {
+				g.w.run(g.t, "restart")
+			}
+		}
+		g.w.run(g.t, "restart")
+		g.w.run(g.t, "restart")
+		if r.Bool(1, 3) { // shrink a little and restart again
+			rs := g.w.m.GetAllRules()
+			x := rs[r.Intn(len(rs))]
+			if x.GroupID != "pd" && g.w.run(g.t, fmt.Sprintf("del %d %d", rankOf(groupNames, x.GroupID), rankOf(idNames, x.ID))) == "ok" {
+				stored--
+			}
+			g.w.run(g.t, "restart")
+		}
+	}
+	g.hist["bulk-sequences"]++
+	g.hist[fmt.Sprintf("bulk-final-rules:%d", stored/50*50)]++
+}
+
 func main() {
 	out := flag.String("out", "-", "trace file")
 	replay := flag.String("replay", "", "ops file to replay instead of generating")
 	n := flag.Int("n", 50, "number of generated sequences")
 	maxOps := flag.Int("len", 40, "max ops per sequence")
 	stream := flag.Uint64("stream", 0, "PRNG stream")
+	nBulk := flag.Int("bulk", 0, "number of bulk sequences (>= 100 persisted rules, restarts at the page boundaries)")
 	prof := flag.String("cpuprofile", "", "write a CPU profile")
 	flag.Parse()
 	if *prof != "" {
@@ -822,6 +903,9 @@ func main() {
 		return
 	}
 	g := &gen{r: rng.FromEnv(*stream), w: w, t: t, hist: map[string]int{}}
+	for s := 0; s < *nBulk; s++ {
+		g.bulk()
+	}
 	for s := 0; s < *n; s++ {
 		g.sequence(*maxOps, s%8 == 7)
 	}
